@@ -107,7 +107,18 @@ class Roles:
         self._note('sequence class', self.sequence.name if self.sequence else None)
 
     # ------------------------------------------------------------------
-    def _has_first_completed_wait_in_loop(self, f):
+    def _has_first_completed_wait_in_loop(self, f, depth=0):
+        # the loop may live in a private coroutine that co_run awaits on self
+        # (`return await self._co_run()`): follow such delegations, two levels at most
+        if depth < 2 and f.cls is not None:
+            for n in walk_local(f.node):
+                if isinstance(n, ast.Await) and isinstance(n.value, ast.Call) \
+                        and isinstance(n.value.func, ast.Attribute) and isinstance(n.value.func.value, ast.Name) \
+                        and n.value.func.value.id == 'self':
+                    g = self.prog.supplier(f.cls, n.value.func.attr)
+                    if g is not None and g is not f and g.is_async and g.name != 'co_shutdown' \
+                            and self._has_first_completed_wait_in_loop(g, depth + 1):
+                        return True
         for n in walk_local(f.node):
             if isinstance(n, (ast.While, ast.For)):
                 for m in ast.walk(n):
